@@ -3,6 +3,7 @@ import json
 
 from urllib import request
 from operator import attrgetter
+from itertools import islice
 from typing import Tuple, Sequence, Any, Iterable, Dict, MutableSequence, MutableMapping, Union, overload
 
 from coba.random import random
@@ -148,15 +149,21 @@ class OpenmlSource(Source[Iterable[Tuple[Union[MutableSequence, MutableMapping],
         # Openml doesn't publish any rate-limiting guidelines, so our staggering is a guess.
         if semaphore: time.sleep(2*random())
 
+        n_yielded = 0
+
         try:
             KB = 1024
             MB = 1024*KB
             if api_key: url = f"{url}?api_key={api_key}"
-            yield from HttpSource(url, timeout=timeout, chunk_size=10*MB).read()
+            for line in HttpSource(url, timeout=timeout, chunk_size=10*MB).read():
+                n_yielded += 1
+                yield line
 
         except TimeoutError:
             if tries == 3: raise
-            yield from self._http_request(url, timeout=5**(tries+1), tries=tries+1)
+            #a new attempt starts from the beginning so we skip what was handed on before the timeout. Otherwise
+            #a timeout in the middle of a large download gives the first lines twice (and a cache entry like that).
+            yield from islice(self._http_request(url, timeout=5**(tries+1), tries=tries+1), n_yielded, None)
 
         except request.HTTPError as e:
             status, content = e.code, e.fp.read()
